@@ -7,8 +7,8 @@
   Part 2: the generator bookkeeping (private model copy, seed, mode number, derived arrays) as a state
   machine: in every reachable state the arrays are the ones derived from the generator's current
   settings, and every field-level call returns what a freshly constructed object returns — the
-  nugget noise included: it is the noise a fresh object gives after the same number of variates has
-  been drawn since the stream was last restarted, and the stream is restarted exactly by a change the
+  nugget noise included: it is the noise a fresh object gives after the same number of noise draws
+  since the stream was last restarted, and the stream is restarted exactly by a change the
   generator can see (model incl. nugget, seed value, mode number, explicit reset).
   Part 3: positions: a field-level call stores and evaluates the positions it was given, whatever
   was stored before.
@@ -179,29 +179,55 @@ theorem noise_positions_advance (s : State) (n k : Nat) (hn : s.genModel.nug ≠
     let r1 := genCall s n true
     let r2 := genCall r1.1 k true
     r1.2.noise.map (fun t => (t.1, t.2.2)) = some (s.seed, s.draws, n) ∧
-    r2.2.noise.map (fun t => (t.1, t.2.2)) = some (s.seed, s.draws + n, k) := by
+    r2.2.noise.map (fun t => (t.1, t.2.2)) = some (s.seed, s.draws + 1, k) := by
   simp [genCall, hn]
 
 /-! ### nugget noise: the stream position, and when the stream is restarted -/
 
-/-- a fresh object on which `burn` variates were drawn: same settings, stream position `burn`
+/-- a generating call changes nothing but the stream position, and that by one iff noise is drawn -/
+theorem genCall_fst_spec (s : State) (n : Nat) (b : Bool) (p : Option Nat) :
+    (genCall s n b p).1.genModel = s.genModel ∧ (genCall s n b p).1.srfModel = s.srfModel ∧
+    (genCall s n b p).1.seed = s.seed ∧ (genCall s n b p).1.modeNo = s.modeNo ∧
+    (genCall s n b p).1.derived = s.derived ∧ (genCall s n b p).1.epoch = s.epoch ∧
+    (b = true → s.genModel.nug ≠ 0 → (genCall s n b p).1.draws = s.draws + 1) ∧
+    (¬ (b = true ∧ s.genModel.nug ≠ 0) → (genCall s n b p).1.draws = s.draws) := by
+  by_cases hn : (b = true ∧ s.genModel.nug ≠ 0)
+  · have e : (genCall s n b p).1 = { s with draws := s.draws + 1 } := by unfold genCall; rw [if_pos hn]
+    rw [e]
+    exact ⟨rfl, rfl, rfl, rfl, rfl, rfl, fun _ _ => rfl, fun h => absurd hn h⟩
+  · have e : (genCall s n b p).1 = s := by unfold genCall; rw [if_neg hn]
+    rw [e]
+    exact ⟨rfl, rfl, rfl, rfl, rfl, rfl, fun h1 h2 => absurd ⟨h1, h2⟩ hn, fun _ => rfl⟩
+
+/-- noise-drawing calls change nothing but the stream position -/
+theorem burnN_spec (k : Nat) (s : State) :
+    (burnN k s).genModel = s.genModel ∧ (burnN k s).srfModel = s.srfModel ∧ (burnN k s).seed = s.seed ∧
+    (burnN k s).modeNo = s.modeNo ∧ (burnN k s).derived = s.derived ∧ (burnN k s).epoch = s.epoch ∧
+    (s.genModel.nug ≠ 0 → (burnN k s).draws = s.draws + k) := by
+  induction k generalizing s with
+  | zero => exact ⟨rfl, rfl, rfl, rfl, rfl, rfl, fun _ => rfl⟩
+  | succ k ih =>
+    obtain ⟨h1, h2, h3, h4, h5, h6, h7⟩ := ih (genCall s 1 true none).1
+    obtain ⟨g1, g2, g3, g4, g5, g6, g7, _⟩ := genCall_fst_spec s 1 true none
+    simp only [burnN]
+    refine ⟨h1.trans g1, h2.trans g2, h3.trans g3, h4.trans g4, h5.trans g5, h6.trans g6, fun h => ?_⟩
+    rw [h7 (by rw [g1]; exact h), g7 rfl h]
+    omega
+
+/-- a fresh object on which `burn` noise draws were made: same settings, stream position `burn`
     (for a model with nugget), and it is coherent -/
 theorem replayState_spec (r : Recipe) :
     (replayState r).genModel = r.model ∧ (replayState r).srfModel = r.model ∧ (replayState r).seed = r.seed ∧
     (replayState r).modeNo = r.modeNo ∧ (r.model.nug ≠ 0 → (replayState r).draws = r.burn) ∧ Coherent (replayState r) := by
-  unfold replayState genCall
-  split
-  · rename_i hn
-    refine ⟨rfl, rfl, rfl, rfl, fun _ => ?_, rfl⟩
-    simp [init]
-  · rename_i hn
-    refine ⟨rfl, rfl, rfl, rfl, fun h => ?_, rfl⟩
-    exact absurd ⟨rfl, h⟩ hn
+  obtain ⟨h1, h2, h3, h4, h5, h6, h7⟩ := burnN_spec r.burn (init r.model r.seed r.modeNo)
+  refine ⟨h1, h2, h3, h4, fun h => ?_, ?_⟩
+  · rw [replayState, h7 h]; simp [init]
+  · unfold Coherent replayState; rw [h5, h1, h3, h4, h6]; rfl
 
 /-- **C11_noise_replay (generator level)**: with an integer seed, the complete output of a generating call —
     summed modes *and* nugget noise — in any coherent state equals the output of a freshly constructed
-    generator with the same model, seed and mode number on which as many noise variates were drawn before
-    as the state has drawn since its stream was last restarted. -/
+    generator with the same model, seed and mode number on which as many noise draws were made before
+    as the state has made since its stream was last restarted. -/
 theorem genCall_equals_fresh_replay (s : State) (x : Nat) (hs : s.seed = some x) (h : Coherent s)
     (n : Nat) (b : Bool) (p : Option Nat) :
     (genCall (replayState (recipe s)) n b p).2 = (genCall s n b p).2 := by
@@ -215,7 +241,7 @@ theorem genCall_equals_fresh_replay (s : State) (x : Nat) (hs : s.seed = some x)
   · have hn' : b = true ∧ (replayState (recipe s)).genModel.nug ≠ 0 := by rw [hg]; exact hn
     rw [if_pos hn, if_pos hn']
     simp only []
-    rw [hd, hsd, hdr hn.2]
+    rw [hd, hsd, hdr hn.2, hg]
     simp only [recipe, hs]
   · have hn' : ¬ (b = true ∧ (replayState (recipe s)).genModel.nug ≠ 0) := by rw [hg]; exact hn
     rw [if_neg hn, if_neg hn']
@@ -247,14 +273,14 @@ theorem genCall_out_pos (s : State) (q : Option Nat) (n : Nat) (b : Bool) (p : O
   · simp only [genCall]; rw [if_neg hn, if_neg hn]
 
 /-- the fresh object that reproduces a field-level call: the field's current model, the resulting seed and
-    mode number, and the number of variates drawn since the stream was last restarted -/
+    mode number, and the number of noise draws since the stream was last restarted -/
 def callRecipe (s : State) (a : SeedArg) (p x : Nat) : Recipe :=
   { model := s.srfModel, seed := some x, modeNo := (preCall s a p).modeNo, burn := (preCall s a p).draws }
 
 /-- **C11_noise_replay (field level)**: after ANY history, a field-level call that leaves an integer seed
     returns exactly what a freshly constructed object returns that has the field's current model, the
-    resulting seed and mode number, has drawn `burn` noise variates, and is evaluated at the same positions
-    — where `burn` is the number of variates drawn since the last restart of the stream, and the stream is
+    resulting seed and mode number, has made `burn` noise draws, and is evaluated at the same positions
+    — where `burn` is the number of noise draws since the last restart of the stream, and the stream is
     restarted by `update` iff the model (incl. its nugget) or the seed value changed. -/
 theorem srfCall_equals_fresh_replay (s : State) (a : SeedArg) (p n x : Nat) (h : Coherent s)
     (hs : (preCall s a p).seed = some x) :
@@ -338,6 +364,6 @@ example : Coherent (run (init ⟨1, 1⟩ (some 7) 100)
 /-- the hypotheses of `srfCall_equals_fresh_replay` are met after a history with noise drawn, an in-place
     change of the nugget only, and a call that keeps the seed: the stream is restarted (burn = 0) -/
 example : (preCall (run (init ⟨1, 1⟩ (some 7) 100) [.srfCall .keep 0 5, .modelChange ⟨1, 2⟩]).1 .keep 0).draws = 0 ∧
-    (preCall (run (init ⟨1, 1⟩ (some 7) 100) [.srfCall .keep 0 5]).1 .keep 1).draws = 5 := by decide
+    (preCall (run (init ⟨1, 1⟩ (some 7) 100) [.srfCall .keep 0 5, .genCall 3 true]).1 .keep 1).draws = 2 := by decide
 
 end GSV.Props.C11
